@@ -222,6 +222,14 @@ func mix(h uint64, v uint64) uint64 {
 	return h
 }
 
+// Current returns the name of the running thread ("" outside Run).
+func (s *S) Current() string {
+	if s.cur == nil {
+		return ""
+	}
+	return s.cur.name
+}
+
 // Observe folds a value the running thread has just learned (e.g. the result of a read) into its state hash.
 func (s *S) Observe(v uint64) {
 	if s.cur != nil {
